@@ -204,7 +204,7 @@ func (fc *FuncCtx) ghostsAssignedIn(n ast.Node) []string {
 		if st, ok := n.(ast.Stmt); ok {
 			if ord, ok := fc.loopOrd[st]; ok {
 				for _, ga := range fc.Con.GhostAts {
-					if ga.Kind == "body" && ga.Ord == ord {
+					if (ga.Kind == "body" || ga.Kind == "endbody") && ga.Ord == ord {
 						switch l := ga.LHS.(type) {
 						case SIdent:
 							set[l.Name] = true
@@ -231,6 +231,15 @@ func (fc *FuncCtx) ghostsAssignedIn(n ast.Node) []string {
 func (fc *FuncCtx) runBodyGhosts(ord int, st *St) {
 	for _, ga := range fc.Con.GhostAts {
 		if ga.Kind == "body" && ga.Ord == ord {
+			fc.execGhost(ga.LHS, ga.RHS, st, nil)
+		}
+	}
+}
+
+// runEndBodyGhosts: ghost statements anchored at the end of a loop body (after the post statement).
+func (fc *FuncCtx) runEndBodyGhosts(ord int, st *St) {
+	for _, ga := range fc.Con.GhostAts {
+		if ga.Kind == "endbody" && ga.Ord == ord {
 			fc.execGhost(ga.LHS, ga.RHS, st, nil)
 		}
 	}
@@ -353,6 +362,7 @@ func (fc *FuncCtx) execFor(x *ast.ForStmt, st *St, c ctl) {
 				return
 			}
 		}
+		fc.runEndBodyGhosts(li.ord, s)
 		fc.assertInvs(li, s, "preserve", nil)
 		if li.spec.Decreases != nil {
 			v1 := fc.spec(li.spec.Decreases, fc.newEnv(s))
